@@ -3,7 +3,7 @@ import itertools
 import random
 from fractions import Fraction
 
-from .common import EXPONENTS, PREFIX, And, Case, Not, Or, call, check_names, exact_eq, payload, vabs
+from .common import EXPONENTS, PREFIX, And, Case, Not, Or, band, call, check_names, exact_eq, payload, vabs
 from .common import close as plain_close
 from .unitterms_common import (A, Dv, M, Mono, P, S, build, catalogue, depth, dimvec, eval_expr, exponent_value, fpow, fstr, lcm, mono,
                                mono_dimvec, mono_scale, numeric_coefficient, positive_scale, root_degree, tid)
@@ -18,7 +18,10 @@ MANIFEST = dict(
           "every enumerated term shape (all of depth <= 1, a fixed seeded catalogue of depth 2 and 3, exponents from E) the solver "
           "decides per path, for ALL positive scales and all offsets, that scale/dimension/expression of the result equal a "
           "structure-independent monomial oracle, and the laws: commutative, associative, identity, inverse, (u**p)**q == u**(p*q), "
-          "(u*v)**p == u**p*v**p, u == v iff scale, offset and dimension agree (never the spelling), equal hash for the same "
+          "(u*v)**p == u**p*v**p, u == v iff scale, offset and dimension agree (never the spelling, and never the SIZE of the scales: the "
+          "verdict is the same inside the regimes below 1e-12 / 1e-20 and above 1e12 / 1e20, it survives a common factor of any positive "
+          "scale on both sides, and it is the verdict of u/v == 1, u**-1 == v**-1, u**p == v**p; table units from both ends of the table "
+          "incl. a sum of two quantities that trusts ==), equal hash for the same "
           "expression, simplify()/as_coeff_unit()/cached unit rules preserve coeff*scale and dimension, offset/logarithmic guards "
           "raise exactly outside the algebra. Encoding: a positive scale is written s = t**N (N = the root degree the case needs) so "
           "that every rational power is an exact monomial; the exponent bookkeeping of that normal form is harness code (trusted), "
@@ -38,24 +41,43 @@ EXPLANATION = (
     "(MonoReal, harness/unitterms_common.py): products/quotients/rational powers stay exact monomials over the t's, two monomials "
     "over the same power product are compared through 'y > 0 => close(c1*y, c2*y)' (linear), Unit.__eq__'s math.isclose on such a "
     "pair is decided on the exact rational coefficients. Obligations whose two sides normalise to the same term are closed by "
-    "z3's simplifier and counted as ground checks."
+    "z3's simplifier and counted as ground checks. Equality: besides the sandwich around the library's band (equal => scales agree to "
+    "1e-8, unequal => not to 1e-10, interior probes), (a) the same obligations restricted to four magnitude regimes with witnesses far "
+    "from every band edge, (b) the law family: one restated comparison per case (a common symbolic factor w on both sides in four "
+    "operand orders, table factors t_pl / me / Msun / bethe, u/v == 1 in four spellings, inverses, squares, odd and fractional powers) "
+    "must give the verdict of u == v for all scales outside the edge zone (a relative 1e-11..1e-7 apart), (c) the magnitude family: "
+    "same-dimension table pairs chosen by the size of their scales, verdict from the harness' reading of the table, quotient / inverse "
+    "restatements, a symbolic bystander xc**k on both sides, and x*u + y*v == x*s_u + y*s_v in SI for symbolic readings. If a changed "
+    "Unit.__eq__ asks for the absolute size of a high-degree power product (math.isclose(..., abs_tol=...)), MonoReal answers a relatively "
+    "equal pair at once, hands a power product of total degree <= 8 to the solver and over-approximates the rest (see ASSUMPTIONS)."
 )
 BOUNDS = {
     "quick": "atoms {xa, xb, xc, kxa}; all 88 terms of depth <= 1 with every p in E given as Fraction/float/sympy Rational/numpy float, 260 seeded "
              "terms of depth 2 and 260 of depth 3 (root degree <= 36); the 88 shallow terms again in the root-witness encoding; power-of-power over "
              "E x E for 14 terms; all 16 atom pairs + 150 seeded pairs; all 64 atom triples + 100 seeded triples; 31 symbolic + 31 table equality "
-             "cases, 2 symbolic offset-pair cases; 12 hash cases + 36 registry-history hash cases (8 expressions x 6 histories of add/modify/remove, 10 ways to rebuild at every point; ground); 260 simplify (incl. 22 same-dimension table pairs, 18 of non-integer ratio, in 5 forms each) and 40 cached-rule cases; guards: 11 units x 11 partners x 4 operators, "
+             "cases (each with 4 magnitude regimes), 2 symbolic offset-pair cases; 180 equality-law cases (12 pairs of units x up to 30 restatements: "
+             "every restatement on 4 main pairs, 7 on the others, odd/fractional powers on pairs of atoms); 122 table pairs chosen by magnitude (per "
+             "dimension: all pairs below 1e-9, all pairs above 1e9, smallest vs largest, two smallest, two largest; neighbouring SI prefixes y..Y on "
+             "m, eV, g; 26 compound / near-miss pairs) with quotient, inverse, bystander and sum obligations; 12 hash cases + 36 registry-history hash cases (8 expressions x 6 histories of add/modify/remove, 10 ways to rebuild at every point; ground); 260 simplify (incl. 22 same-dimension table pairs, 18 of non-integer ratio, in 5 forms each) and 40 cached-rule cases; guards: 11 units x 11 partners x 4 operators, "
              "26 powers of 11 units; 4 unit-with-number cases",
     "thorough": "same atoms; 1800 seeded terms of depth 2 and 1800 of depth 3; power-of-power over E x E for 40 terms; 1000 seeded pairs, 1000 seeded "
-                "triples; 1000 simplify and 300 cached-rule cases; equality, hash and guard tables as in quick; all ordered pairs of the 145 table atoms (ground)",
+                "triples; 1000 simplify and 300 cached-rule cases; equality, hash and guard tables as in quick, plus: 324 equality-law cases (every "
+                "restatement on all 12 pairs), 694 magnitude table pairs (EVERY same-dimension pair of the 145 table atoms, prefixes y..Y on 8 bases); "
+                "all ordered pairs of the 145 table atoms (ground)",
 }
 OUTSIDE = ("IEEE rounding (A1); cancellation inside simplify() with symbolic scales (table units there: ground obligations); term shapes "
            "beyond the catalogue (depth > 3, root degree > 36); units of non-positive scale; hash equality of *different* spellings of "
            "equal units (not promised by the property); offsets on units that are neither temperature nor angle; u**0 of an offset unit; "
-           "cross-registry operands (C13)")
+           "cross-registry operands (C13); equality restatements inside the edge zone of the band (scales a relative 1e-11..1e-7 apart: "
+           "rounding and |p| <= 3 may tip the verdict there); scales below 1e-90 / above 1e90 in replays of the equality cases; "
+           "odd and fractional powers of compound pairs in the law family (atoms only)")
 ASSUMPTIONS = ["MonoReal (harness/unitterms_common.py): a positive scale symbol is introduced as t**N; the exponent arithmetic that keeps products, "
                "quotients and rational powers of such scales in exact monomial form, and the reduction of closeness/isclose of two monomials over the "
-               "same power product to their rational coefficients, are harness code"]
+               "same power product to their rational coefficients, are harness code",
+               "MonoReal._isclose_hook with abs_tol != 0 (only reached on a tree whose Unit.__eq__ passes one): the absolute clause |c1-c2|*M <= abs_tol "
+               "of a power product M of total degree > 8 is answered by a free Boolean named after (M, bound) instead of the polynomial (z3 does not "
+               "honour its timeout on t**216 against 1e-12). This weakens the path condition, so 'holds' verdicts stay valid; a model that needs an "
+               "impossible combination does not replay and is reported as inconclusive"]
 CONFORM = {"quick": 40, "thorough": 120}
 
 NAMES = ["xa", "xb", "xc", "xd", "xn", "xq", "xq2", "xt", "xu", "xg", "xl", "xz"]
@@ -85,17 +107,22 @@ def mono_expand(t):
     return out
 
 
-def make_env(ctx, extra=(), N=1, witness=False):
+def make_env(ctx, extra=(), N=1, witness=False, wide=False):
     """custom registry (defaults kept, so table units are available too) with symbolic-scale atoms.
     Scales are s = t**N for positive symbols t (N = the root degree the case needs, so that every root is an exact monomial);
-    witness=True uses plain positive symbols instead and leaves the roots to the engine's witness variables."""
+    witness=True uses plain positive symbols instead and leaves the roots to the engine's witness variables.
+    wide=True (equality cases: small N, no high powers): a model replays with the scale t**N it means down to 1e-90 / up to 1e90 (cubes are still doubles)."""
     D = ctx.mods["unyt"].dimensions
     Unit = ctx.mods["unyt"].Unit
     reg = ctx.registry([])
+    rr = (1e-90, 1e90) if wide else (1e-12, 1e12)
+
+    def pscale(c, name, n):
+        return positive_scale(c, name, n, replay_range=rr)
     if witness:
         sa, sb, sc = ctx.real("sa", pos=True), ctx.real("sb", pos=True), ctx.real("sc", pos=True)
     else:
-        sa, sb, sc = positive_scale(ctx, "ta", N), positive_scale(ctx, "tb", N), positive_scale(ctx, "tc", N)
+        sa, sb, sc = pscale(ctx, "ta", N), pscale(ctx, "tb", N), pscale(ctx, "tc", N)
     ctx.add_row(reg, "xa", D.length, sa, 0.0, prefixable=True)
     ctx.add_row(reg, "xb", D.mass, sb, 0.0)
     ctx.add_row(reg, "xc", D.time, sc, 0.0)
@@ -103,7 +130,7 @@ def make_env(ctx, extra=(), N=1, witness=False):
     dimvec_of = {"xa": {L_: F(1)}, "xb": {M_: F(1)}, "xc": {T_: F(1)}}
     for n in extra:
         if n == "xd":      # same dimension as xa, independent scale
-            s = positive_scale(ctx, "td", N)
+            s = pscale(ctx, "td", N)
             ctx.add_row(reg, "xd", D.length, s, 0.0)
             scale_of[n], dimvec_of[n] = s, {L_: F(1)}
         elif n == "xn":    # a 'newton' of the custom system: same unit as xb*xa/xc**2, other spelling
@@ -111,11 +138,11 @@ def make_env(ctx, extra=(), N=1, witness=False):
             ctx.add_row(reg, "xn", D.mass * D.length / D.time**2, s, 0.0)
             scale_of[n], dimvec_of[n] = s, {M_: F(1), L_: F(1), T_: F(-2)}
         elif n == "xq":    # same dimension as xn, independent scale
-            s = positive_scale(ctx, "tq", N)
+            s = pscale(ctx, "tq", N)
             ctx.add_row(reg, "xq", D.force, s, 0.0)
             scale_of[n], dimvec_of[n] = s, {M_: F(1), L_: F(1), T_: F(-2)}
         elif n == "xz":    # dimensionless with a scale (like percent)
-            s = positive_scale(ctx, "tz", N)
+            s = pscale(ctx, "tz", N)
             ctx.add_row(reg, "xz", D.dimensionless, s, 0.0)
             scale_of[n], dimvec_of[n] = s, {}
         elif n in TABLE:
@@ -272,9 +299,26 @@ def make_triple_case(t1, t2, t3):
 
 # ----------------------------------------------------------------------------- equality is decided by scale, offset, dimension
 
-def sandwich(ctx, tag, u, v, su, sv, ou, ov, dims_equal):
+REGIMES = [("below 1e-12", None, 1e-12), ("below 1e-20", None, 1e-20), ("above 1e12", 1e12, None), ("above 1e20", 1e20, None)]
+
+
+def in_regime(s, lo, hi):
+    return (s >= lo) if hi is None else (s <= hi)
+
+
+def rel_gap_between(su, sv, lo, hi):
+    """lo < |su - sv| / mean(su, sv) < hi for positive scales (polymorphic)"""
+    gap = vabs(su - sv)
+    mid = (su + sv) * 0.5
+    return And(gap > mid * lo, gap < mid * hi)
+
+
+def sandwich(ctx, tag, u, v, su, sv, ou, ov, dims_equal, regimes=True):
     """u == v  <=>  isclose(scale) & isclose(offset) & same dimension, asserted with a gap around the library's 1e-9 band so
-    that any model replays robustly: equal => agree to 1e-8; not equal => not (agree to 1e-10)"""
+    that any model replays robustly: equal => agree to 1e-8; not equal => not (agree to 1e-10).
+    regimes: the verdict is a matter of the RATIO of the scales only - the same obligations again inside the magnitude regimes
+    (both scales below 1e-12 / 1e-20, above 1e12 / 1e20), with counterexamples that sit far from every band edge: equal units are
+    never a factor two apart, unequal units never closer than 1e-11, however small or large both scales are"""
     t8, t10 = Fraction(1, 10**8), Fraction(1, 10**10)
     eq = bool(u == v)
     if eq:
@@ -289,6 +333,19 @@ def sandwich(ctx, tag, u, v, su, sv, ou, ov, dims_equal):
         for lo, hi in ((3e-8, 1e-7), (3e-6, 1e-5), (3e-4, 1e-3)) if eq else ((3e-12, 1e-11), (3e-11, 1e-10)):
             ctx.require(f"{tag}: {'==' if eq else '!='} never with scales a relative {lo:g}..{hi:g} apart (offsets equal)",
                         Not(And(gap > mid * lo, gap < mid * hi, plain_close(ou, ov, tol=t10))))
+        if regimes:
+            for rname, lo, hi in REGIMES:
+                both = And(in_regime(su, lo, hi), in_regime(sv, lo, hi), plain_close(ou, ov, tol=t10))
+                if eq:
+                    ctx.require(f"{tag}: == never with both scales {rname} and a factor two or more apart (offsets equal)",
+                                Not(And(both, Or(su >= sv * 2, sv >= su * 2))))
+                else:
+                    ctx.require(f"{tag}: != never with both scales {rname} and closer than a relative 1e-11 (offsets equal)",
+                                Not(And(both, gap < mid * 1e-11)))
+        if eq:
+            # the same for the offsets, whatever their size: equal units never have offsets a relative 0.1 apart
+            ctx.require(f"{tag}: == never with offsets a relative 0.1 or more apart",
+                        Not(And(vabs(ou - ov) >= (vabs(ou) + vabs(ov)) * 0.1, vabs(ou - ov) > 0)))
     ctx.require(f"{tag}: symmetric", bool(v == u) is eq)
     ctx.require(f"{tag}: != is the negation", (u != v) is (not eq))
     ctx.observe(f"{tag}: eq", eq)
@@ -346,7 +403,7 @@ def make_eq_case(name, extra, t1, t2):
     N = lcm(root_degree(t1), root_degree(t2))
 
     def h(ctx):
-        reg, env, scale_of, dimvec_of = make_env(ctx, extra, N=N)
+        reg, env, scale_of, dimvec_of = make_env(ctx, extra, N=N, wide=True)
         m1, m2 = mono_expand(t1), mono_expand(t2)
         u, v = build(t1, env, ctx.mods, reg), build(t2, env, ctx.mods, reg)
         s1, s2 = mono_scale(m1, scale_of), mono_scale(m2, scale_of)
@@ -357,6 +414,116 @@ def make_eq_case(name, extra, t1, t2):
         ctx.require("eq: reflexive", And(bool(u == u), bool(v == v), not (u != u)))
         ctx.require("eq: not equal to a non-unit", And(not (u == str(u)), not (u == 1.0), u != None))  # noqa: E711
     return Case(f"C05/eq/sym/{name}", h, group="eq")
+
+
+# ----------------------------------------------------------------------------- equality is compatible with the algebra
+
+LAW_PAIRS = [
+    # (id, extra atoms, u, v): two units of one dimension with independent scales (and two controls)
+    ("xa,xd", ["xd"], A("xa"), A("xd")),
+    ("kxa,xd", ["xd"], A("kxa"), A("xd")),
+    ("xq,xn", ["xq", "xn"], A("xq"), A("xn")),
+    ("xq,xb.xa:xc^2", ["xq"], A("xq"), Dv(M(A("xb"), A("xa")), P(A("xc"), 2))),
+    ("xa^2,xd^2", ["xd"], P(A("xa"), 2), P(A("xd"), 2)),
+    ("xa^1|2,xd^1|2", ["xd"], P(A("xa"), F(1, 2)), P(A("xd"), F(1, 2))),
+    ("xa:xc,xd:xc", ["xd"], Dv(A("xa"), A("xc")), Dv(A("xd"), A("xc"))),
+    ("xz,one", ["xz", "dimensionless"], A("xz"), A("dimensionless")),
+    ("xz.xa,xd", ["xz", "xd"], M(A("xz"), A("xa")), A("xd")),
+    ("xa,km", ["km"], A("xa"), A("km")),                  # one side a table unit
+    ("xa,xb", [], A("xa"), A("xb")),                      # control: different dimensions
+    ("xa,xa^2", [], A("xa"), P(A("xa"), 2)),              # control: different dimensions, dependent scales
+]
+
+LAW_MAIN = ("xa,xd", "kxa,xd", "xq,xn", "xz,one")               # every probe
+LAW_ATOMS = ("xa,xd", "kxa,xd", "xz,one", "xa,km", "xa,xb")       # odd and fractional powers (they fork inside the edge zone: cubic terms)
+
+# one probe = one case (every probe is one more Unit.__eq__, i.e. one more fork of the path): (id, label, factor, exponent, kind)
+# factors: symbolic bystanders of another dimension (any positive scale), and table units from the far ends of the table
+# (t_pl 5.4e-44 s, me 9.1e-31 kg, Msun 2.0e30 kg, bethe 1e44 J: the obligations stay linear in the two scales under test)
+LAW_PROBES = [
+    ("xb.u", "u*w == v*w", "xb", 1, "mul"), ("u.xb", "w*u == w*v", "xb", 1, "rmul"), ("u:xb", "u/w == v/w", "xb", 1, "div"), ("xb:u", "w/u == w/v", "xb", 1, "rdiv"),
+    ("u.xc^-2", "u*w == v*w", "xc", -2, "mul"), ("u:xc^-2", "u/w == v/w", "xc", -2, "div"),
+    ("u.xz", "u*w == v*w", "xz", 1, "mul"), ("u:xz", "u/w == v/w", "xz", 1, "div"),
+    ("u.me", "u*w == v*w", "me", 1, "mul"), ("u:me", "u/w == v/w", "me", 1, "div"),
+    ("u.Msun", "u*w == v*w", "Msun", 1, "mul"), ("u:Msun", "u/w == v/w", "Msun", 1, "div"),
+    ("u.t_pl", "u*w == v*w", "t_pl", 1, "mul"), ("t_pl:u", "w/u == w/v", "t_pl", 1, "rdiv"),
+    ("u.bethe", "u*w == v*w", "bethe", 1, "mul"), ("bethe:u", "w/u == w/v", "bethe", 1, "rdiv"),
+    ("u:v=1", "u/v == 1", None, 1, "q1"), ("v:u=1", "v/u == 1", None, 1, "q2"), ("u.v^-1=1", "u*v**-1 == 1", None, 1, "q3"), ("(u:v).v=v", "(u/v)*v == v", None, 1, "q4"),
+    ("u^-1", "u**-1 == v**-1", None, -1, "pow"), ("1:u", "1/u == 1/v", None, 1, "inv2"),
+    ("u^2", "u**2 == v**2", None, 2, "pow"), ("u.u", "u*u == v*v", None, 1, "sq"), ("u.v", "u*v == v*v", None, 1, "uv"),
+    ("u^1|2", "u**(1/2) == v**(1/2)", None, F(1, 2), "pow"), ("u^-1|3", "u**(-1/3) == v**(-1/3)", None, F(-1, 3), "pow"),
+    ("u^3", "u**3 == v**3", None, 3, "pow"), ("u^-2", "u**-2 == v**-2", None, -2, "pow"), ("u^3|2", "u**(3/2) == v**(3/2)", None, F(3, 2), "pow"),
+]
+LAW_REDUCED = ("xb.u", "u.me", "u:Msun", "bethe:u", "u:v=1", "u^-1", "u^2")
+LAW_ODD = ("u^1|2", "u^-1|3", "u^3", "u^-2", "u^3|2")
+
+
+def law_cases(quick):
+    out = []
+    for name, extra, t1, t2 in LAW_PAIRS:
+        for probe in LAW_PROBES:
+            if probe[0] in LAW_ODD:
+                if name not in LAW_ATOMS:
+                    continue
+            elif quick and name not in LAW_MAIN and probe[0] not in LAW_REDUCED:
+                continue
+            if (name, probe[0]) == ("kxa,xd", "u^3|2"):
+                continue     # 1000**1.5 is a rounded coefficient next to cubic terms: z3 needs most of a minute on a tree where the law fails
+            out.append(make_eq_law_case(name, extra, t1, t2, probe))
+    return out
+
+
+def make_eq_law_case(name, extra, t1, t2, probe):
+    """u == v is a statement about the unit, so it must agree with every way the algebra can restate it: attaching one and the same
+    factor w on both sides (for EVERY positive scale of w, and for table units from both ends of the table: the verdict may depend
+    on the ratio of the two scales only, never on how small or large they are), dividing one by the other and comparing with the
+    identity, inverting or raising both to one power. The restated comparison is made by the real Unit.__eq__ and must give the
+    verdict of u == v, unless the two scales lie in the edge zone of the library's own band (a relative 1e-11 .. 1e-7 apart), where
+    rounding and |p| <= 3 may legitimately tip it."""
+    pid, label, wname, p, kind = probe
+    N = lcm(lcm(root_degree(t1), root_degree(t2)), F(p).denominator)
+    if wname is not None and wname not in ("xa", "xb", "xc") and wname not in extra:
+        extra = list(extra) + [wname]
+
+    def h(ctx):
+        reg, env, scale_of, dimvec_of = make_env(ctx, extra, N=N, wide=True)
+        Unit = ctx.mods["unyt"].Unit
+        m1, m2 = mono_expand(t1), mono_expand(t2)
+        u, v = build(t1, env, ctx.mods, reg), build(t2, env, ctx.mods, reg)
+        s1, s2 = mono_scale(m1, scale_of), mono_scale(m2, scale_of)
+        d1, d2 = mono_dimvec(m1, dimvec_of), mono_dimvec(m2, dimvec_of)
+        one = Unit(registry=reg)
+        eq = bool(u == v)
+        edge = rel_gap_between(s1, s2, 1e-11, 1e-7) if d1 == d2 else False
+        e = exponent_value(p, "frac")
+        if wname is not None:
+            w = env[wname] ** e if p != 1 else env[wname]
+            ws = fpow(scale_of[wname], p)
+            lhs, rhs = {"mul": (u * w, v * w), "rmul": (w * u, w * v), "div": (u / w, v / w), "rdiv": (w / u, w / v)}[kind]
+            ls = {"mul": s1 * ws, "rmul": ws * s1, "div": s1 / ws, "rdiv": ws / s1}[kind]
+            ctx.require(f"eq law {label}: the left side has the oracle's scale", close(lhs.base_value, ls))
+        elif kind == "pow":
+            lhs, rhs = u ** e, v ** e
+        elif kind == "q1":
+            lhs, rhs = u / v, one
+        elif kind == "q2":
+            lhs, rhs = v / u, one
+        elif kind == "q3":
+            lhs, rhs = u * v ** -1, one
+        elif kind == "q4":
+            lhs, rhs = (u / v) * v, v
+        elif kind == "inv2":
+            lhs, rhs = one / u, one / v
+        elif kind == "sq":
+            lhs, rhs = u * u, v * v
+        elif kind == "uv":
+            lhs, rhs = u * v, v * v
+        verdict = bool(lhs == rhs)
+        ctx.require(f"eq law {label}: the same verdict as u == v (outside the edge zone of the band)", Or(verdict is eq, edge), u_eq_v=eq, restated=verdict)
+        ctx.require(f"eq law {label}: != is the negation", (lhs != rhs) is (not verdict))
+        ctx.observe(label, verdict)
+        ctx.observe("eq", eq)
+    return Case(f"C05/eq/law/{name}/{pid}", h, group="eq")
 
 
 def make_eq_offset_case(kind):
@@ -379,7 +546,28 @@ def make_eq_offset_case(kind):
     return Case(f"C05/eq/offset/{kind}", h, group="eq")
 
 
-def make_table_eq_case(a, b, want):
+def table_row(name):
+    """(scale, offset, dimension vector) of a table symbol or prefixed table symbol: the harness' reading of unyt's table"""
+    from unyt._unit_lookup_table import default_unit_symbol_lut as lut
+    s, dv = table_unit(name)
+    return s, (float(lut[name][2] or 0.0) if name in lut else 0.0), dv
+
+
+def oracle_verdict(ra, rb):
+    """equal / not equal / None (too close to the edge of the band to call) from two table rows"""
+    (sa, oa, da), (sb, ob, db) = ra, rb
+    if da != db:
+        return False
+    gs = abs(sa - sb) / max(abs(sa), abs(sb))
+    go = 0.0 if oa == ob else abs(oa - ob) / max(abs(oa), abs(ob))
+    if gs > 1e-8 or go > 1e-8:
+        return False
+    if gs < 1e-10 and go < 1e-10:
+        return True
+    return None
+
+
+def make_table_eq_case(a, b, want, family="table"):
     def h(ctx):
         Unit = ctx.mods["unyt"].Unit
         reg = ctx.registry([])
@@ -389,6 +577,34 @@ def make_table_eq_case(a, b, want):
         eq = bool(u == v)
         if want is not None:
             ctx.require(f"table eq: verdict", eq is want)
+        ctx.require("table eq: symmetric, != is the negation", And(bool(v == u) is eq, (u != v) is (not eq), (v != u) is (not eq)))
+        # the harness' own reading of the two expressions (table scales, prefix table, exponent arithmetic)
+        look = _prefix_lookup({}, {})
+        ra = call(lambda: (eval_expr(u.expr, {}, {}, lookup=look), eval_expr(v.expr, {}, {}, lookup=look)))
+        known = ra[0] == "ok"
+        if known:
+            (sa, da), (sb, db) = ra[1]
+            ctx.require("table eq: operands have the scale and dimension the harness reads from the expression",
+                        And(close(u.base_value, sa), close(v.base_value, sb), dimvec(u.dimensions) == da, dimvec(v.dimensions) == db))
+        # compatible with the algebra: the quotient is the identity, the inverses are equal, exactly when u == v
+        one = Unit(registry=reg)
+        r = call(lambda: (u / v, v / u, u * v ** -1, u ** -1, v ** -1))
+        if r[0] == "ok":
+            uv, vu, uvi, ui, vi = r[1]
+            got = [bool(uv == one), bool(vu == one), bool(uvi == one), bool(ui == vi), bool(one / u == one / v)]
+            ctx.require("table eq: u/v == 1, v/u == 1, u*v**-1 == 1, u**-1 == v**-1, 1/u == 1/v all give the verdict of u == v",
+                        got == [eq] * 5, u_eq_v=eq, got=got)
+            if known:
+                ctx.require("table eq: u/v has the quotient of the scales", close(uv.base_value, sa / sb))
+        # a consumer that trusts ==: the sum of two quantities (symbolic readings) is the sum of their SI magnitudes
+        if known and da == db and not u.base_offset and not v.base_offset and da != {LOG_: F(1)}:
+            xs, ys = ctx.real("x"), ctx.real("y")
+            q = call(lambda: ctx.quantity(xs, u) + ctx.quantity(ys, v))
+            ctx.require("table eq: x*u + y*v is defined for two units of one dimension", q[0] == "ok", got=q[1])
+            if q[0] == "ok":
+                si = payload(q[1])[0] * q[1].units.base_value
+                ctx.require("table eq: x*u + y*v is the sum of the SI magnitudes (for all readings x, y)",
+                            plain_close(si, xs * sa + ys * sb, extra=band(xs * sa, ys * sb)))
         ctx.require("table eq: verdict follows scale/offset/dimension, not the spelling",
                     eq == (close(u.base_value, v.base_value, tol=Fraction(1, 10**9)) and close(u.base_offset, v.base_offset, tol=Fraction(1, 10**9)) and dimvec(u.dimensions) == dimvec(v.dimensions)))
         xc = Unit("xc", registry=reg)
@@ -398,7 +614,57 @@ def make_table_eq_case(a, b, want):
                 uu, vv = r[1]
                 ctx.require(f"table eq: same verdict with xc**{fstr(k)} attached", And(bool(uu == vv) is eq, close(uu.base_value, u.base_value * x ** k)))
         ctx.observe("eq", eq)
-    return Case("C05/eq/table/" + f"{a}={b}".replace("/", ":"), h, group="eq")
+    return Case(f"C05/eq/{family}/" + f"{a}={b}".replace("/", ":"), h, group="eq")
+
+
+# pairs of table units picked by MAGNITUDE: the 31 hand-written pairs above are all of ordinary size, the table is not
+MAG_BASES = {"quick": ["m", "eV", "g"], "thorough": ["m", "eV", "g", "s", "Hz", "pc", "Pa", "K"]}
+MAG_LADDER = ["y", "z", "a", "f", "p", "n", "T", "P", "E", "Z", "Y"]
+MAG_HAND = [
+    # compound spellings at both ends of the table; equal pairs and near misses (a relative 1e-6 apart) at extreme magnitudes
+    ("Å**2", "fm**2", False), ("pm*fm", "fm**2", False), ("pm*fm", "1e3*fm**2", True), ("eV/s", "keV/s", False), ("1/Ym", "1/Zm", False),
+    ("eV**2", "keV**2", False), ("sqrt(eV)", "sqrt(keV)", False), ("amu*fm", "me*fm", False), ("me*fm**2/fs**2", "amu*fm**2/fs**2", False),
+    ("fm", "1e-3*pm", True), ("keV", "1000*eV", True), ("MeV", "1e6*eV", True), ("eV", "1.000001*eV", False), ("me", "1.000001*me", False),
+    ("t_pl", "1.000001*t_pl", False), ("Msun", "1.000001*Msun", False), ("bethe", "1.000001*foe", False), ("Ypc", "1000*Zpc", True),
+    ("Msun/me", "1e3*Msun/me", False), ("me/Msun", "1e3*me/Msun", False), ("l_pl*t_pl", "2*l_pl*t_pl", False), ("bethe*Msun", "2*bethe*Msun", False),
+    ("l_pl**3", "fm**3", False), ("pc**3", "ly**3", False), ("1/l_pl", "1/fm", False), ("eV", "1.00000000000001*eV", True),
+]
+
+
+def magnitude_pairs(tier):
+    """same-dimension pairs of table symbols chosen by the size of their SI scale. quick: within every dimension all pairs of symbols
+    below 1e-9, all pairs above 1e9, smallest vs largest, the two smallest, the two largest; thorough: every same-dimension pair.
+    Plus neighbouring SI prefixes from y to Y on a few prefixable bases, plus the hand-written compound pairs.
+    The expected verdict comes from the table rows (relative gap of scale and offset), None inside the edge zone of the band."""
+    from unyt._unit_lookup_table import default_unit_symbol_lut as lut
+    groups = {}
+    for n in sorted(lut):
+        s, o, dv = table_row(n)
+        groups.setdefault(tuple(sorted(dv.items())), []).append((abs(s), n))
+    pairs = []
+    for key in sorted(groups):
+        g = sorted(groups[key])
+        names = [n for _, n in g]
+        if len(names) < 2:
+            continue
+        if tier == "quick":
+            tiny, huge = [n for x, n in g if x <= 1e-9], [n for x, n in g if x >= 1e9]
+            sel = set(itertools.combinations(tiny, 2)) | set(itertools.combinations(huge, 2))
+            sel |= {(names[0], names[-1]), (names[0], names[1]), (names[-2], names[-1])}
+            sel = {(a, b) for a, b in sel if a != b}
+        else:
+            sel = set(itertools.combinations(names, 2))
+        pairs += sorted(sel)
+    for base in MAG_BASES[tier]:
+        for p1, p2 in list(zip(MAG_LADDER, MAG_LADDER[1:])) + [("y", "Y")]:
+            pairs.append((p1 + base, p2 + base))
+    out, seen = [], set()
+    for a, b in pairs:
+        if (a, b) in seen or (b, a) in seen:
+            continue
+        seen.add((a, b))
+        out.append((a, b, oracle_verdict(table_row(a), table_row(b))))
+    return out + MAG_HAND
 
 
 # ----------------------------------------------------------------------------- hash
@@ -926,10 +1192,15 @@ def cases(tier, mods):
             out.append(make_triple_case(*tr))
     for name, extra, t1, t2 in EQ_PAIRS:
         out.append(make_eq_case(name, extra, t1, t2))
+    out += law_cases(quick)
     out.append(make_eq_offset_case("temperature"))
     out.append(make_eq_offset_case("angle"))
     for a, b, want in TABLE_EQ:
         out.append(make_table_eq_case(a, b, want))
+    have = {(a, b) for a, b, _ in TABLE_EQ}
+    for a, b, want in magnitude_pairs(tier):
+        if (a, b) not in have:
+            out.append(make_table_eq_case(a, b, want, family="magnitude"))
     for s in HASH_STRINGS:
         out.append(make_hash_case(s))
     for hist in HISTORIES:
